@@ -331,6 +331,15 @@ def requests(draw, spec, op_kind=None, max_depth=3, use_variables=True, use_frag
     if multi_op and name and draw(st.integers(0, 3)) == 0:
         # a second, unrelated operation: operation_name becomes mandatory
         other = "query Other { __typename }"
+        if draw(st.booleans()):
+            # a full second operation: its own variables (same names, usually other types) and its own fragments
+            b2 = Builder(draw, spec, max(1, max_depth - 1), use_variables, use_fragments, use_directives, int_boundary,
+                         frag_prefix="G", null_hazards=())
+            body2 = b2.selection_set(spec["query"], 0)
+            other = "query Other%s %s" % (_var_defs_text(b2.vars), body2)
+            for fname, on, sel in b2.frags:
+                defs.append("fragment %s on %s %s" % (fname, on, sel))
+            b.features.add("second-operation-with-own-variables")
         defs.append(other)
         operation_name = name
         b.features.add("multiple-operations")
